@@ -41,6 +41,9 @@ KNOWN = {
     "growing-surface-save-attributeerror":
         "Model.save raises AttributeError for a GrowingSurface without the attribute initial_soil_storage "
         "(not given, or 'nitrate' not simulated)",
+    "monthly-surface-data-resave-attributeerror":
+        "a loaded model whose surfaces have monthly data (keys ('var', to_datetime('YYYY-MM'))) cannot be saved again: "
+        "to_datetime.__str__ calls strftime on the month string it keeps for 'YYYY-MM' dates (AttributeError in write_csv)",
     "save-type-from-class-name":
         "Model.save writes type_ = class __name__ instead of the key the node is filed under in Model.nodes_type: a "
         "NonResidentialDemand added as type_='Demand' (node_type_override='NonResidentialDemand', the documented form "
@@ -577,6 +580,10 @@ def yaml_diff_gen(y1, y2, cfg):
     return keep, known
 
 
+def has_monthly_surface_data(cfg):
+    return any(s.get("data_input_dict") for n in cfg["nodes"] for s in n.get("surfaces", []))
+
+
 def check_saveload(cfg, compress):
     """one save/load case.  Returns dict(problems=[messages], known=set(signatures), nontrivial=bool, skipped=reason or None)"""
     res = {"problems": [], "known": set(), "nontrivial": False, "skipped": None, "runs": 0}
@@ -596,11 +603,16 @@ def check_saveload(cfg, compress):
         s1 = model_snap(m1)
         m2, y2, f2, err = save_load(m1, compress)
         if err:
-            bad(f"second generation: {err}")
-            return res
-        s2 = model_snap(m2)
+            m2 = None
+            if (err.startswith("save: AttributeError: 'str' object has no attribute 'strftime'") and "write_csv" in err
+                    and has_monthly_surface_data(cfg)):
+                res["known"].add("monthly-surface-data-resave-attributeerror")
+            else:
+                bad(f"second generation: {err}")
+        s2 = model_snap(m2) if m2 is not None else None
         # ---- original vs first generation: parameters
         d01 = diff(s0, s1, TOL)
+        ref1 = ref2 = None
         if perv:
             if only_pervious_depth(d01, m0, cfg):
                 res["known"].add("pervious-depth-saved-scaled")
@@ -609,34 +621,37 @@ def check_saveload(cfg, compress):
                 bad(f"parameter snapshot of the loaded model differs from the original: {fmt_diffs(other)}")
             # the same comparison with the known defect factored out: the loaded model must be the model of the
             # config whose pervious depths are what the file says
-            ref1, ref2 = build(scaled(cfg, 1)), build(scaled(cfg, 2))
+            ref1 = build(scaled(cfg, 1))
             dd = diff(model_snap(ref1), s1, TOL)
             if dd:
                 bad(f"loaded model differs from the original beyond the known pervious depth scaling: {fmt_diffs(dd)}")
-            dd = diff(model_snap(ref2), s2, TOL)
-            if dd:
-                bad(f"second-generation model differs beyond the known pervious depth scaling: {fmt_diffs(dd)}")
+            if m2 is not None:
+                ref2 = build(scaled(cfg, 2))
+                dd = diff(model_snap(ref2), s2, TOL)
+                if dd:
+                    bad(f"second-generation model differs beyond the known pervious depth scaling: {fmt_diffs(dd)}")
         else:
-            ref1 = ref2 = None
             if d01:
                 bad(f"parameter snapshot of the loaded model differs from the original: {fmt_diffs(d01)}")
-            d12 = diff(s1, s2, 0.0)
-            if d12:
-                bad(f"saving and loading again changed the model: {fmt_diffs(d12)}")
+            if m2 is not None:
+                d12 = diff(s1, s2, 0.0)
+                if d12:
+                    bad(f"saving and loading again changed the model: {fmt_diffs(d12)}")
         # ---- second generation files vs first generation files
-        yd, yk = yaml_diff_gen(y1, y2, cfg)
-        if yk:
-            res["known"].add("pervious-depth-saved-scaled")
-        if yd:
-            bad(f"second-generation config differs from the first: {fmt_diffs(yd)}")
-        if f1 != f2:
-            names = [k for k in set(f1) | set(f2) if f1.get(k) != f2.get(k)]
-            bad(f"second-generation data files differ from the first: {sorted(names)[:4]}")
+        if m2 is not None:
+            yd, yk = yaml_diff_gen(y1, y2, cfg)
+            if yk:
+                res["known"].add("pervious-depth-saved-scaled")
+            if yd:
+                bad(f"second-generation config differs from the first: {fmt_diffs(yd)}")
+            if f1 != f2:
+                names = [k for k in set(f1) | set(f2) if f1.get(k) != f2.get(k)]
+                bad(f"second-generation data files differ from the first: {sorted(names)[:4]}")
         # ---- behaviour
         r0, e0 = run_model(m0)
         r1, e1 = run_model(m1)
-        r2, e2 = run_model(m2)
-        res["runs"] += 3
+        r2, e2 = run_model(m2) if m2 is not None else (None, e1)
+        res["runs"] += 2 + (m2 is not None)
         if e0 or e1 or e2:
             if e0 == e1 == e2:
                 res["skipped"] = "all generations raise alike: " + str(e0)
@@ -649,6 +664,8 @@ def check_saveload(cfg, compress):
             if d and "pervious-depth-saved-scaled" not in res["known"]:
                 bad(f"results of the loaded model differ from the original: {fmt_diffs(d)}")
             for tag, ref, rr_ in (("loaded", ref1, r1), ("second-generation", ref2, r2)):
+                if ref is None or rr_ is None:
+                    continue
                 rref, eref = run_model(ref)
                 res["runs"] += 1
                 if eref:
@@ -660,9 +677,10 @@ def check_saveload(cfg, compress):
         else:
             if d:
                 bad(f"results of the loaded model differ from the original: {fmt_diffs(d)}")
-            d = diff_results(r1, r2, 0.0)
-            if d:
-                bad(f"results after saving and loading again differ from the first generation: {fmt_diffs(d)}")
+            if r2 is not None:
+                d = diff_results(r1, r2, 0.0)
+                if d:
+                    bad(f"results after saving and loading again differ from the first generation: {fmt_diffs(d)}")
     except Exception as ex:       # the monitor itself must not die silently on an odd model
         bad("monitor error: " + err_text(ex) + " | " + traceback.format_exc()[-400:])
     finally:
